@@ -55,6 +55,10 @@ FORMS = [
 DISAGREE = {"MSG usage at 95%", "MSG %y", "MSG %(key", "MSG %d"}
 
 
+class _Runaway(BaseException):
+    """private: unwinds the program when a log line has grown beyond any reason"""
+
+
 class BadStr:
     def __str__(self) -> str:
         raise TypeError("cannot render")
@@ -347,6 +351,13 @@ def execute(program, ch: Chooser) -> Result:  # noqa: C901, PLR0915
                             "raised": raised,
                         }
                     )
+                    # a line that keeps growing from call to call (e.g. a prefix escaped again and
+                    # again) would exhaust memory long before the program ends: stop right here
+                    if any(isinstance(r.msg, str) and len(r.msg) > 20000 for r in _cap.records[n0:]):
+                        runaway.append(f"a log line of {max(len(r.msg) for r in _cap.records[n0:] if isinstance(r.msg, str))} characters at {pos}")
+                        raise _Runaway()
+
+    runaway: list = []
 
     def make_cb(i: int):
         def cb(m):
@@ -411,6 +422,16 @@ def execute(program, ch: Chooser) -> Result:  # noqa: C901, PLR0915
         loop.run_ready()
         if not task.done():
             raise RuntimeError("C19 driver did not finish")
+        if runaway:
+            _cap.records.clear()
+            calls.clear()
+            return Result(
+                "runaway",
+                True,
+                [viol("tagged", "line-grows-without-bound", "a tag of the scope's name / trace id / identifier in front of the message", runaway[0])],
+                {"runaway": runaway[0]},
+                steps=steps[0],
+            )
         if task.cancelled():
             viols.append(viol("never-raises", "driver-cancelled", "runs", "the program ended cancelled although nobody cancelled it"))
         elif task.exception() is not None:
